@@ -125,7 +125,23 @@ func c16Check(c c16Case) *Violation {
 				return
 			}
 			// a block that arrives as text (what the reader hands over)
-			o2 := &seqio.Origin{Buffer: []byte(want), Parsed: false}
+			block := []byte(want)
+			o2 := &seqio.Origin{Buffer: block, Parsed: false}
+			defer func() {
+				if v != nil {
+					return
+				}
+				// the block handed over is still the block: whoever else holds these bytes (the reader's buffer, a second
+				// Origin over them) decodes the same residues from them
+				if string(block) != want {
+					v = viol("block-changed", "decoding a block of %d residues changed the bytes it was given at byte %d", c.Len, firstDiff(string(block), want))
+					return
+				}
+				o3 := &seqio.Origin{Buffer: block, Parsed: false}
+				if b3 := o3.Bytes(); !bytes.Equal(b3, p) {
+					v = viol("bytes", "decoding the same block of %d residues a second time gives %d bytes, first difference at %d", c.Len, len(b3), firstDiff(string(b3), string(p)))
+				}
+			}()
 			if o2.Len() != c.Len {
 				v = viol("len", "Len() of a %d-byte block = %d, want %d", len(want), o2.Len(), c.Len)
 				return
